@@ -121,8 +121,16 @@ func e3C03Config(rng *mrand.Rand, quick bool, i int) e3Config {
 		// so here only steps are fixed and nodes are given as ranks among the correct nodes
 		for j := 0; j < k; j++ {
 			rs := e3Restart{Step: 20 + rng.IntN(1200), Node: -1 - rng.IntN(n)}
-			if rng.IntN(5) != 0 {
+			// half of the restarts wait until the node has finalized two heights; the others come
+			// at any time, also during the first heights and their commit waits
+			switch rng.IntN(4) {
+			case 0, 1:
 				rs.MinFinalized = 2
+			case 2:
+				// at the first router step after the node's driver answered the finalization of its
+				// first, second or third height: with the router's virtual timers that is inside the
+				// commit wait, finalization stored, next height not yet entered
+				rs.Step, rs.MinFinalized = 0, uint64(1+rng.IntN(3))
 			}
 			cfg.Restarts = append(cfg.Restarts, rs)
 		}
